@@ -325,3 +325,187 @@ def extract_paired_file(ctx=None):
     facts = extract_paired()
     C.write_if_changed(C.LEAN / "BlueskyVerif" / "Gen" / "GeneratedPaired.lean", render_paired(facts))
     return facts
+
+
+# =============================================================================== C24
+
+
+def _find_inner(fn, name):
+    for n in ast.walk(fn):
+        if isinstance(n, ast.FunctionDef) and n.name == name:
+            return n
+    raise Unrecognised(f"{fn.name}: inner function {name} not found")
+
+
+def extract_relative():
+    path = C.SRC / "preprocessors.py"
+    tree = ast.parse(path.read_text())
+    facts = {"source": str(path)}
+    insert_reads = (
+        "def insert_reads(msg):\n    eligible = «elig:[^\n]*»\n    seen = msg.obj in initial_positions\n"
+        "    if msg.command == 'set' and eligible and (not seen):\n"
+        "        return (pchain(__read_and_stash_a_motor(msg.obj, initial_positions, coupled_parents), single_gen(msg)), None)\n"
+        "    else:\n        return (None, None)"
+    )
+    norm = "if devices is not None:\n    devices, coupled_parents = _normalize_devices(devices)\nelse:\n    coupled_parents = set()"
+    # ------------------------------------------------------------------ relative_set_wrapper
+    g = _match(
+        "relative_set_wrapper",
+        _body(_func(tree, "relative_set_wrapper")),
+        [
+            "initial_positions = {}",
+            norm,
+            "def rewrite_pos(msg):\n    if msg.command == 'set' and msg.obj in initial_positions:\n        rel_pos, = msg.args\n"
+            "        abs_pos = «expr:[^\n]*»\n        new_msg = msg._replace(args=(abs_pos,))\n        return new_msg\n    else:\n        return msg",
+            insert_reads,
+            "plan = plan_mutator(plan, insert_reads)",
+            "plan = msg_mutator(plan, rewrite_pos)",
+            "return (yield from plan)",
+        ],
+    )
+    if g["elig"] not in ("devices is None or msg.obj in devices",):
+        raise Unrecognised(f"relative_set_wrapper: eligible = {g['elig']}")
+    e = ast.parse(g["expr"], mode="eval").body
+    if not (isinstance(e, ast.BinOp) and ast.unparse(e.left) == "initial_positions[msg.obj]" and ast.unparse(e.right) == "rel_pos"):
+        raise Unrecognised(f"relative_set_wrapper: abs_pos = {g['expr']} is not initial_positions[msg.obj] <op> rel_pos")
+    if isinstance(e.op, ast.Add):
+        facts["rsCombine"] = ".add"
+    elif isinstance(e.op, ast.Sub):
+        facts["rsCombine"] = ".sub"
+    else:
+        raise Unrecognised(f"relative_set_wrapper: operator in {g['expr']}")
+    # ------------------------------------------------------------------ reset_positions_wrapper
+    g = _match(
+        "reset_positions_wrapper",
+        _body(_func(tree, "reset_positions_wrapper")),
+        [
+            "initial_positions = OrderedDict()",
+            norm,
+            insert_reads,
+            "def reset():\n    blk_grp = f'reset-{str(uuid.uuid4())[:6]}'\n    for k, v in «it:[^\n]*»:\n        if k.parent in coupled_parents:\n            continue\n"
+            "        yield Msg('set', k, v, group=blk_grp)\n    yield Msg('wait', None, group=blk_grp)",
+            "return (yield from finalize_wrapper(plan_mutator(plan, insert_reads), reset()))",
+        ],
+    )
+    if g["elig"] != "devices is None or msg.obj in devices":
+        raise Unrecognised(f"reset_positions_wrapper: eligible = {g['elig']}")
+    if g["it"] == "initial_positions.items()":
+        facts["rpResetOrder"] = ".forward"
+    elif g["it"] == "reversed(initial_positions.items())":
+        facts["rpResetOrder"] = ".reversed"
+    else:
+        raise Unrecognised(f"reset_positions_wrapper: reset iterates over {g['it']}")
+    # ------------------------------------------------------------------ __read_and_stash_a_motor
+    fn = _func(tree, "__read_and_stash_a_motor")
+    body = [s for s in fn.body if not (isinstance(s, ast.Expr) and isinstance(s.value, ast.Constant))]
+    top = body[0]
+    order = []
+    node = top
+    while isinstance(node, ast.If):
+        t = ast.unparse(node.test)
+        if t == "isinstance(obj, Locatable)":
+            order.append("locate")
+            exp = ["location = (yield from __get_result_of_message('locate', obj))", "if location is None:\n    setpoint = 0\nelse:\n    setpoint = location['setpoint']"]
+            if [ast.unparse(x) for x in node.body] != exp:
+                raise Unrecognised("__read_and_stash_a_motor: Locatable branch")
+        elif t == "hasattr(obj, 'position')":
+            order.append("attribute")
+            if [ast.unparse(x) for x in node.body] != ["setpoint = obj.position"]:
+                raise Unrecognised("__read_and_stash_a_motor: position branch")
+        else:
+            raise Unrecognised(f"__read_and_stash_a_motor: test {t}")
+        if len(node.orelse) == 1 and isinstance(node.orelse[0], ast.If):
+            node = node.orelse[0]
+        else:
+            rest = [ast.unparse(x) for x in node.orelse]
+            if not rest or rest[0] != "reading = (yield from __get_result_of_message('read', obj))" or not rest[1].startswith("if reading is None:\n    setpoint = 0\nelse:"):
+                raise Unrecognised("__read_and_stash_a_motor: read branch")
+            order.append("read")
+            node = None
+    if ast.unparse(body[1]) != "initial_positions[obj] = setpoint":
+        raise Unrecognised("__read_and_stash_a_motor: the position is not stashed right after it was obtained")
+    facts["posSourceOrder"] = order
+    _match("__get_result_of_message", _body(_func(tree, "__get_result_of_message")), ["result = (yield Msg(msg_type, obj))", "if result is None:\n    «p:[^\n]*»", "return result"])
+    # ------------------------------------------------------------------ plan_stubs: abs_set / rel_set / mv / mvr
+    stubs = ast.parse((C.SRC / "plan_stubs.py").read_text())
+    _match("abs_set", _body(_func(stubs, "abs_set")), ["if wait and group is None:\n    group = str(uuid.uuid4())", "ret = (yield Msg('set', obj, *args, group=group, **kwargs))", "if wait:\n    yield Msg('wait', None, group=group)", "return ret"])
+    _match("rel_set", _body(_func(stubs, "rel_set")), ["from .preprocessors import relative_set_wrapper", "return (yield from relative_set_wrapper(abs_set(obj, *args, group=group, wait=wait, **kwargs)))"])
+    _match(
+        "mvr",
+        _body(_func(stubs, "mvr")),
+        [
+            "objs = []",
+            "for obj, val in partition(2, args):\n    objs.append(obj)",
+            "from .preprocessors import relative_set_decorator",
+            "@relative_set_decorator(objs)\ndef inner_mvr():\n    return (yield from mv(*args, group=group, timeout=timeout, **kwargs))",
+            "return (yield from inner_mvr())",
+        ],
+    )
+    _match(
+        "mv",
+        _body(_func(stubs, "mv")),
+        [
+            "group = group or str(uuid.uuid4())",
+            "status_objects = []",
+            "cyl = reduce(operator.add, [cycler(obj, [val]) for obj, val in partition(2, args)])",
+            "step, = merge_cycler(cyl)",
+            "for obj, val in step.items():\n    ret = (yield Msg('set', obj, val, group=group, **kwargs))\n    status_objects.append(ret)",
+            "yield Msg('wait', None, group=group, timeout=timeout)",
+            "return tuple(status_objects)",
+        ],
+    )
+    # ------------------------------------------------------------------ the rel_* plans: reset(relative(inner))
+    plans = ast.parse((C.SRC / "plans.py").read_text())
+    rel = []
+    for fn in plans.body:
+        if isinstance(fn, ast.FunctionDef) and (fn.name.startswith("rel_") or fn.name.startswith("relative_")):
+            inner = [n for n in ast.walk(fn) if isinstance(n, ast.FunctionDef) and n is not fn and n.decorator_list]
+            if not inner:
+                # a thin alias that delegates to another rel_ plan
+                calls = [ast.unparse(n.func) for n in ast.walk(fn) if isinstance(n, ast.Call)]
+                if not any(c.startswith("rel_") for c in calls):
+                    raise Unrecognised(f"{fn.name}: neither decorated inner plan nor delegation to a rel_ plan")
+                continue
+            decs = [ast.unparse(d) for d in inner[0].decorator_list]
+            m0 = re.fullmatch(r"bpp\.reset_positions_decorator\((.*)\)", decs[0]) if decs else None
+            m1 = re.fullmatch(r"bpp\.relative_set_decorator\((.*)\)", decs[1]) if len(decs) > 1 else None
+            if len(decs) != 2 or not m0 or not m1 or m0.group(1) != m1.group(1):
+                raise Unrecognised(f"{fn.name}: inner plan is not decorated by reset_positions_decorator(M) over relative_set_decorator(M): {decs}")
+            rel.append(fn.name)
+    facts["relPlans"] = sorted(rel)
+    _match(
+        "make_decorator",
+        [ast.unparse(s) for s in _find_inner(_func(ast.parse((C.SRC / "utils" / "__init__.py").read_text()), "make_decorator"), "dec_inner").body],
+        ["plan = gen_func(*inner_args, **inner_kwargs)", "plan = wrapper(plan, *args, **kwargs)", "return (yield from plan)"],
+    )
+    return facts
+
+
+SRC_LEAN = {"locate": ".locate", "attribute": ".attribute", "read": ".read"}
+
+
+def render_relative(f):
+    out = [
+        "/- GENERATED by harness/pairedextract.py from src/bluesky/preprocessors.py -- do not edit. -/",
+        "import BlueskyVerif.Gen.RelativeBasic",
+        "",
+        "namespace BlueskyVerif.Gen.Generated",
+        "open BlueskyVerif.Gen",
+        "",
+        "/-- relative_set_wrapper.rewrite_pos: `abs_pos = initial_positions[msg.obj] <op> rel_pos` -/",
+        f"def rsCombine : RelOp := {f['rsCombine']}",
+        "/-- reset_positions_wrapper.reset: order in which `initial_positions` is walked -/",
+        f"def rpResetOrder : Order := {f['rpResetOrder']}",
+        "/-- __read_and_stash_a_motor: where the initial position comes from, in the order the source tests -/",
+        "def posSourceOrder : List PosSource := [" + ", ".join(SRC_LEAN[s] for s in f["posSourceOrder"]) + "]",
+        "",
+        "end BlueskyVerif.Gen.Generated",
+        "",
+    ]
+    return "\n".join(out)
+
+
+def extract_relative_file(ctx=None):
+    facts = extract_relative()
+    C.write_if_changed(C.LEAN / "BlueskyVerif" / "Gen" / "GeneratedRelative.lean", render_relative(facts))
+    return facts
